@@ -480,6 +480,12 @@ class Project(MessageHandler):
             # Implicit milestone: has start/end but no duration metrics
             is_implicit_milestone = (start or end) and effort == 0 and duration == 0 and length == 0
 
+            # A date outside the scheduling horizon cannot be honoured; such a milestone
+            # goes through the main loop and is reported as unschedulable there
+            p_start, p_end = self.attributes.get("start"), self.attributes.get("end")
+            if p_start and p_end and any(d and not (p_start <= d <= p_end) for d in (start, end)):
+                continue
+
             if is_explicit_milestone or is_implicit_milestone:
                 # Only mark as scheduled if we can set both dates
                 # Milestones with dependencies but no dates need to go through normal scheduling
